@@ -71,6 +71,10 @@ class FsPath:
         return self._p
 
 
+FILE_NAMES = ["label.img", "label.img", "mission data/product one.img", "caf\u00e9 #2.img",
+              "100%/a+b.lbl", "dir.with.dots/x%20y.IMG", "\u00b5m/\u4e2d.lbl", "a&b=c;d.img"]
+
+
 def workdir():
     d = os.path.join(VERIF, ".work", f"c09-{os.getpid()}")
     os.makedirs(d, exist_ok=True)
@@ -249,7 +253,12 @@ def load_from_pipe(data, text, lf):
 def load_all_ways(label, data):
     """None or (signature, detail)."""
     d = workdir()
-    path = os.path.join(d, "label.img")
+    # where the product lies is part of the hand-over: directory and file names with
+    # blanks, non-ASCII letters, '%', '#', '+' (what a file: URL has to quote)
+    import zlib
+    name = FILE_NAMES[zlib.crc32(data) % len(FILE_NAMES)]
+    path = os.path.join(d, *name.split("/"))
+    os.makedirs(os.path.dirname(path), exist_ok=True)
     with open(path, "wb") as f:
         f.write(data)
     lf0 = counting_lexer()
@@ -276,7 +285,8 @@ def load_all_ways(label, data):
                 elif way == "path-Path":
                     m = pvl.load(pathlib.Path(path), lexer_fn=lf)
                 elif way == "path-DirEntry":
-                    entry = [e for e in os.scandir(d) if e.name == "label.img"][0]
+                    entry = [e for e in os.scandir(os.path.dirname(path))
+                             if e.name == os.path.basename(path)][0]
                     m = pvl.load(entry, lexer_fn=lf)
                 elif way == "path-fspath-object":
                     m = pvl.load(FsPath(path), lexer_fn=lf)
